@@ -487,9 +487,27 @@ fn cmd_check(args: &BTreeMap<String, String>) -> i32 {
             }
         }
     }
+    // directed (scripted, PRNG-free) scenarios of this property: hand-written schedules for races that the
+    // random profiles do not reach within their budgets
+    let mut scripted_violation: Option<(String, Vec<Action>, ClusterCfg, Violation)> = None;
+    let mut scripted_run = 0u64;
+    for (name, f) in scripted::for_property(&id) {
+        let mut sc = scripted::Script::with_focus(f, focus);
+        scripted_run += 1;
+        if let Some(v) = sc.violation.take() {
+            if v.prop == "HARNESS" {
+                eprintln!("harness error: scripted scenario {name}: {}", v.detail);
+                return 2;
+            }
+            if v.prop == id && !known.iter().any(|k| finding_matches(k, &v, false)) {
+                scripted_violation = Some((name.to_string(), sc.trace.clone(), sc.world.cfg.clone(), v));
+                break;
+            }
+        }
+    }
     let chunk = 256u64;
     let mut from = 0u64;
-    'outer: while from < runs {
+    'outer: while from < runs && scripted_violation.is_none() {
         let to = (from + chunk).min(runs);
         let results = run_batch(&spec.profile, seed, from, to, threads, from == 0, Some(focus));
         for r in results {
@@ -557,6 +575,27 @@ fn cmd_check(args: &BTreeMap<String, String>) -> i32 {
 
     let mut violations = 0;
     let mut replay_path = String::new();
+    if let Some((name, trace, cluster, v)) = &scripted_violation {
+        violations = 1;
+        println!("violation in scripted scenario {name}: {} at step {} on node {}: {}", v.check, v.step, v.node, v.detail);
+        let dir = std::env::var("VERIF_REPLAY_DIR").unwrap_or_else(|_| "/verif/replays".to_string());
+        let _ = std::fs::create_dir_all(&dir);
+        let cut = (v.step as usize).min(trace.len());
+        let rf = ReplayFile {
+            property: id.clone(),
+            profile: format!("scripted:{name}"),
+            seed,
+            run_index: 0,
+            run_seed: 0,
+            minimised: false,
+            original_actions: trace.len(),
+            cluster: cluster.clone(),
+            actions: trace[..cut].to_vec(),
+            expected: Expected { property: v.prop.to_string(), check: v.check.to_string(), step: v.step, node: v.node, sig: v.sig.clone(), detail: v.detail.clone() },
+        };
+        replay_path = format!("{dir}/{id}-scripted-{name}.json");
+        let _ = std::fs::write(&replay_path, serde_json::to_string_pretty(&rf).unwrap());
+    }
     if let Some((r, v)) = &violation {
         violations = 1;
         let (cluster, trace) = r.trace.clone().unwrap();
@@ -595,7 +634,8 @@ fn cmd_check(args: &BTreeMap<String, String>) -> i32 {
         "wall_s": wall,
         "violations": violations,
         "coverage": {
-            "evaluations": evaluations,
+            "evaluations": evaluations + scripted_run,
+            "scripted_scenarios_run": scripted::for_property(&id).iter().map(|x| x.0).collect::<Vec<_>>(),
             "distinct_nontrivial": distinct_nontrivial.len(),
             "rule": format!("one evaluation = one seeded simulated run of a whole cluster (profile '{}'); distinct = new abstract trace hash (sequence of action kind, node, role-after with ids and payloads erased); non-trivial for {}: {}", spec.profile.name, id, spec.rule),
             "samples": samples,
@@ -664,6 +704,7 @@ fn cmd_scenario(args: &BTreeMap<String, String>) -> i32 {
     let name = args.get("arg1").cloned().unwrap_or_default();
     let s = match name.as_str() {
         "s3" => scripted::s3(),
+        "persist_notice_after_truncation" => scripted::persist_notice_after_truncation(),
         _ => {
             eprintln!("usage: raftsim scenario s3 [--write file] [--states]");
             return 2;
